@@ -14,7 +14,7 @@ def _sc(x, M):
     return ring_to_complex(x["c"], x["k"], M)
 
 
-def evaluate(pid, cases, M, name="tapeeval", workers=None, timeout=3000, chunk=20000):
+def evaluate(pid, cases, M, name="tapeeval", workers=None, timeout=3000, chunk=20000, raw=False):
     """cases: [{"n", "ops": [instr], "meas": [{"t": "expval", "pw": [...]} | {"t": "probs", "w": [...]} | {"t": "state"}]}]
     -> (results [{"meas": [np arrays], "bw": [(outcomes, weight)]}], stats)"""
     out = [None] * len(cases)
@@ -42,6 +42,8 @@ def evaluate(pid, cases, M, name="tapeeval", workers=None, timeout=3000, chunk=2
                     ms.append(vals.real.astype(float))
                 else:
                     ms.append(vals)
+            if raw:          # exact ring values as emitted ([c, k] records), for feeding back into another spec
+                ms = [m["v"] for m in j["meas"]]
             out[off + j["tid"] - 1] = {"meas": ms, "bw": [(tuple(b["o"]), float(_sc(b["w"], M).real)) for b in j["bw"]]}
         stats["generated"] += r.generated
         stats["distinct"] += r.distinct
